@@ -197,6 +197,32 @@ def sign_rule(prog, body, kind):
                 problems.append(f"the reduction starts from `{render(s)[:40]}` instead of {INF[kind]}() or a data element")
         if not seeds:
             problems.append("could not identify the start value of the reduction")
+    if kind == "softmax":
+        # the stabilising shift subtracted before exp() is a maximum: it must start from -inf or a data element
+        res = Resolver(body)
+        shifts = []
+        for bb, t in body.calls():
+            f = t.get("f")
+            if f and f["path"].endswith("::exp") and t["args"]:
+                a = res.operand(t["args"][0])
+                if a[0] == "call" and a[1] == "std::ops::Sub::sub" and len(a[2]) == 2:
+                    shifts.append(a[2][1])
+        if not shifts:
+            problems.append("could not identify the shift subtracted before exp()")
+        for sh in shifts:
+            seeds = []
+            for a in alts(sh):
+                if a[0] == "call" and a[1].endswith("Iterator::fold") and len(a[2]) >= 2:
+                    seeds.append(a[2][1])
+                elif a[0] == "call" and (a[1].endswith(("::max", "::min")) or a[1].startswith("mut:")):
+                    continue
+                else:
+                    seeds.append(a)
+            for s in seeds:
+                good = (s[0] == "call" and s[1].endswith("::neg_infinity") and not s[2]) or s[0] == "idx" or \
+                    (s[0] == "call" and s[1].endswith(("::get", "Index::index", "BaseMatrix::max")))
+                if not good:
+                    problems.append(f"the shift (maximum) starts from `{render(s)[:40]}` instead of neg_infinity() or a data element")
     if kind == "argmax":
         cx = BodyCtx.of(body)
         found = False
